@@ -53,6 +53,184 @@ Proof.
       rewrite N.eqb_sym, E. reflexivity.
 Qed.
 
+(* ------------------------------------------------------------------ setup-profiles / auto-connect *)
+Lemma lookup_Some_In : forall c x v, lookup c x = Some v -> In (x, v) c.
+Proof.
+  induction c as [|[k w] r IH]; intros x v H; cbn in H; [discriminate|].
+  destruct (N.eqb_spec k x); [inversion H; subst; left; reflexivity | right; apply IH; assumption].
+Qed.
+Lemma mem_true_iff : forall x l, mem x l = true <-> In x l.
+Proof.
+  intros x l. unfold mem. rewrite existsb_exists. split.
+  - intros [y [I E]]. apply N.eqb_eq in E. subst. assumption.
+  - intro I. exists x. split; [assumption | apply N.eqb_refl].
+Qed.
+Lemma mem_active_ids : forall c x, mem x (active_ids c) = is_active (lookup c x).
+Proof.
+  intros c x. destruct (is_active (lookup c x)) eqn:A.
+  - apply mem_true_iff. unfold active_ids. apply in_map_iff. unfold is_active in A. destruct (lookup c x) as [v|] eqn:L; [|discriminate].
+    exists (x, v). split; [reflexivity|]. apply filter_In. split; [apply lookup_Some_In; assumption|]. cbn. rewrite L. assumption.
+  - destruct (mem x (active_ids c)) eqn:M; [|reflexivity]. apply mem_true_iff in M. unfold active_ids in M. apply in_map_iff in M.
+    destruct M as [[k v] [E I]]. cbn in E. subst k. apply filter_In in I. destruct I as [_ P]. cbn in P. unfold is_active in A. rewrite A in P. discriminate.
+Qed.
+Lemma is_nil_mem : forall l, is_nil l = true <-> forall x, mem x l = false.
+Proof.
+  intros [|y r]; cbn; split; intro H; try reflexivity; try discriminate.
+  specialize (H y). rewrite N.eqb_refl in H. discriminate.
+Qed.
+Lemma is_nil_ext : forall l l', (forall x, mem x l = mem x l') -> is_nil l = is_nil l'.
+Proof.
+  intros l l' H. destruct (is_nil l) eqn:A; destruct (is_nil l') eqn:B; try reflexivity.
+  - pose proof (proj1 (is_nil_mem l) A) as A'. assert (X : is_nil l' = true) by (apply is_nil_mem; intro x; rewrite <- H; apply A'). congruence.
+  - pose proof (proj1 (is_nil_mem l') B) as B'. assert (X : is_nil l = true) by (apply is_nil_mem; intro x; rewrite H; apply B'). congruence.
+Qed.
+
+Lemma mem_cons : forall x i l, mem x (i :: l) = (i =? x) || mem x l.
+Proof. intros. unfold mem. cbn [existsb]. rewrite (N.eqb_sym x i). reflexivity. Qed.
+
+Lemma lookup_fold_set : forall v ids c x, lookup (fold_left (fun c id => set c id v) ids c) x = if mem x ids then Some v else lookup c x.
+Proof.
+  intros v. induction ids as [|i r IH]; intros c x; cbn [fold_left]; [reflexivity|]. rewrite IH, lookup_set, mem_cons.
+  destruct (mem x r); destruct (i =? x); reflexivity.
+Qed.
+Lemma mem_fold_add : forall ids r x, mem x (fold_left (fun r id => add id r) ids r) = mem x ids || mem x r.
+Proof.
+  induction ids as [|i l IH]; intros r x; cbn [fold_left]; [reflexivity|]. rewrite IH, mem_add, mem_cons.
+  destruct (i =? x), (mem x l), (mem x r); reflexivity.
+Qed.
+Lemma lookup_fold_del : forall ids c x, lookup (fold_left del ids c) x = if mem x ids then None else lookup c x.
+Proof.
+  induction ids as [|i r IH]; intros c x; cbn [fold_left]; [reflexivity|]. rewrite IH, lookup_del, mem_cons.
+  destruct (mem x r); destruct (i =? x); reflexivity.
+Qed.
+Lemma mem_fold_remove : forall ids r x, mem x (fold_left (fun r id => remove id r) ids r) = negb (mem x ids) && mem x r.
+Proof.
+  induction ids as [|i l IH]; intros r x; cbn [fold_left]; [reflexivity|]. rewrite IH, mem_remove, mem_cons.
+  destruct (i =? x), (mem x l), (mem x r); reflexivity.
+Qed.
+Lemma mem_newids : forall s x, mem x (newids s) = true -> lookup (s_conns s) x = None.
+Proof.
+  intros s x H. apply mem_true_iff in H. unfold newids in H. apply filter_In in H. destruct H as [_ H].
+  destruct (lookup (s_conns s) x); [discriminate | reflexivity].
+Qed.
+
+Lemma Equiv_refl : forall a, Equiv a a.
+Proof. intro a. repeat split. Qed.
+Lemma Equiv_trans : forall a b c, Equiv a b -> Equiv b c -> Equiv a c.
+Proof. intros a b c [A1 [A2 [A3 A4]]] [B1 [B2 [B3 B4]]]. repeat split; intro x; congruence. Qed.
+Lemma Equiv_Agree : forall a b, Equiv a b -> Agree b -> Agree a.
+Proof.
+  intros a b [E1 [E2 [E3 E4]]] [A1 [A2 A3]]. split; [|split]; intro x.
+  - rewrite E2, E1. apply A1.
+  - rewrite E3, E2. apply A2.
+  - rewrite E4, E2. apply A3.
+Qed.
+(* setup-profiles on an agreeing state changes nothing, whichever of its security setup calls fails *)
+Lemma sp_equiv : forall t fc fp, Agree t -> Equiv (setup_profiles t fc fp) t.
+Proof.
+  intros t fc fp [A1 [A2 A3]]. unfold setup_profiles. split; [|split; [|split]]; intro x; cbn [s_conns s_repo s_profc s_profp].
+  - reflexivity.
+  - rewrite mem_active_ids. symmetry. apply A1.
+  - destruct fc; [reflexivity|]. rewrite mem_active_ids, A2. symmetry. apply A1.
+  - destruct (_ && negb fp); [|reflexivity]. rewrite mem_active_ids, A3. symmetry. apply A1.
+Qed.
+
+Lemma sp_agree : forall t,
+  (is_nil (s_repo t) = true -> is_nil (active_ids (s_conns t)) = true -> forall x, mem x (s_profp t) = false) ->
+  Agree (setup_profiles t false false).
+Proof.
+  intros t H. unfold setup_profiles. split; [|split]; intro x; cbn [s_conns s_repo s_profc s_profp].
+  - apply mem_active_ids.
+  - reflexivity.
+  - cbn [negb]. rewrite andb_true_r.
+    destruct (is_nil (s_repo t)) eqn:E1; destruct (is_nil (active_ids (s_conns t))) eqn:E2; cbn [negb orb]; try reflexivity.
+    rewrite (H eq_refl eq_refl x). symmetry. apply (proj1 (is_nil_mem _) E2).
+Qed.
+
+Lemma undo_final : forall s X ids, Agree s ->
+  (forall x, mem x ids = true -> lookup (s_conns s) x = None) ->
+  s_conns X = fold_left (fun c id => set c id auto_c) ids (s_conns s) ->
+  (is_nil (active_ids (s_conns s)) = false \/ forall x, mem x (s_profp X) = mem x (active_ids (s_conns s))) ->
+  Equiv (setup_profiles (unconnect_all ids X) false false) s.
+Proof.
+  intros s X ids [A1 [A2 A3]] NEW CX COND.
+  assert (LK : forall x, lookup (s_conns (unconnect_all ids X)) x = lookup (s_conns s) x).
+  { intro x. unfold unconnect_all. cbn [s_conns]. rewrite lookup_fold_del, CX, lookup_fold_set.
+    destruct (mem x ids) eqn:M; [symmetry; apply NEW; assumption | reflexivity]. }
+  assert (ACT : forall x, mem x (active_ids (s_conns (unconnect_all ids X))) = mem x (s_repo s)).
+  { intro x. rewrite mem_active_ids, LK. symmetry. apply A1. }
+  unfold setup_profiles. split; [|split; [|split]]; intro x; cbn [s_conns s_repo s_profc s_profp].
+  - apply LK.
+  - apply ACT.
+  - rewrite ACT. symmetry. apply A2.
+  - cbn [negb]. rewrite andb_true_r.
+    destruct (negb (is_nil (s_repo (unconnect_all ids X))) || negb (is_nil (active_ids (s_conns (unconnect_all ids X))))) eqn:AF.
+    + rewrite ACT. symmetry. apply A3.
+    + apply orb_false_iff in AF. destruct AF as [_ AF]. apply negb_false_iff in AF.
+      assert (NA : is_nil (active_ids (s_conns s)) = true).
+      { rewrite <- AF. apply is_nil_ext. intro y. rewrite ACT, mem_active_ids. symmetry. apply A1. }
+      destruct COND as [C | C]; [congruence|]. unfold unconnect_all. cbn [s_profp]. rewrite C, A3, mem_active_ids. symmetry. apply A1.
+Qed.
+
+Lemma autoconnect_cases : forall s f, Agree s -> excluded s OAutoConnect f = false ->
+  let r := run_change s OAutoConnect f in
+  ((snd r = true \/ snd (fst r) = false) -> Equiv (fst (fst r)) s) /\ Agree (fst (fst r)).
+Proof.
+  intros s f AG EX. cbn [run_change]. unfold run_autoconnect. cbv zeta.
+  pose proof AG as [A1 [A2 A3]].
+  set (s1 := setup_profiles s false false).
+  assert (E1 : Equiv s1 s) by (apply sp_equiv; assumption).
+  assert (AG1 : Agree s1) by (eapply Equiv_Agree; eassumption).
+  assert (NEW : forall x, mem x (newids s1) = true -> lookup (s_conns s) x = None) by (intros x H; apply (mem_newids s1 x H)).
+  assert (NILR : is_nil (s_repo s) = is_nil (active_ids (s_conns s))).
+  { apply is_nil_ext. intro x. rewrite mem_active_ids. apply A1. }
+  (* the successful run *)
+  assert (OK : is_nil (newids s1) = false -> Agree (setup_profiles (connect_all (newids s1) s1) false false)).
+  { intros _. apply sp_agree. cbn [connect_all s_repo s_profp s_conns]. intros H1 _ x.
+    pose proof (proj1 (is_nil_mem _) H1 x) as H. rewrite mem_fold_add in H. apply orb_false_iff in H. destruct H as [_ H].
+    destruct AG1 as [_ [_ B3]]. rewrite B3. exact H. }
+  (* everything undone after the second setup-profiles ran (partly) *)
+  assert (UN : forall X, s_conns X = fold_left (fun c id => set c id auto_c) (newids s1) (s_conns s) ->
+               (is_nil (active_ids (s_conns s)) = false \/ forall x, mem x (s_profp X) = mem x (active_ids (s_conns s))) ->
+               Equiv (setup_profiles (unconnect_all (newids s1) X) false false) s).
+  { intros X CX C. apply undo_final; assumption. }
+  destruct f as [| |k|]; cbn [excluded] in EX.
+  - (* NoFail *) change ((1 <=? 0) && (0 <=? setup_calls s)) with false; change ((0 - setup_calls s =? 1) || (0 - setup_calls s =? 2)) with false; cbn iota. destruct (is_nil (newids s1)) eqn:N; cbn [fst snd].
+    + split; [intros [H | H]; discriminate | exact AG1].
+    + split; [intros [H | H]; discriminate | apply OK; reflexivity].
+  - (* FailBefore *) cbn [fst snd]. split; [intros _; apply Equiv_refl | exact AG].
+  - (* FailMain k *)
+    destruct ((1 <=? k) && (k <=? setup_calls s)) eqn:K1; cbn [fst snd].
+    { assert (E : Equiv (setup_profiles s (k =? 1) (k =? 2)) s) by (apply sp_equiv; assumption).
+      split; [intros _; exact E | eapply Equiv_Agree; eassumption]. }
+    destruct (is_nil (newids s1)) eqn:N; cbn [fst snd].
+    { split; [intros [H | H]; discriminate | exact AG1]. }
+    destruct ((k - setup_calls s =? 1) || (k - setup_calls s =? 2)) eqn:K2; cbn [fst snd].
+    2:{ split; [intros [H | H]; discriminate | apply OK; reflexivity]. }
+    assert (E : Equiv (setup_profiles (unconnect_all (newids s1)
+                 (setup_profiles (connect_all (newids s1) s1) (k - setup_calls s =? 1) (k - setup_calls s =? 2))) false false) s).
+    { apply UN; [reflexivity|].
+      destruct (is_nil (active_ids (s_conns s))) eqn:NA; [right | left; reflexivity].
+      (* no active connection: the first setup-profiles makes one call, so k = 2 is excluded and k = 3 is the slot snap's call *)
+      assert (SC : setup_calls s = 1) by (unfold setup_calls; rewrite NILR, NA; reflexivity).
+      assert (NN : is_nil (newids s) = false) by exact N.
+      rewrite NN in EX. cbn in EX. rewrite SC in *.
+      assert (K3 : (k - 1 =? 2) = true).
+      { destruct (k - 1 =? 1) eqn:X; [|cbn in K2; exact K2]. apply N.eqb_eq in X. assert (k = 2) by lia. subst k. discriminate EX. }
+      intro x. unfold setup_profiles at 1. cbn [s_profp]. rewrite K3. cbn [negb]. rewrite andb_false_r.
+      cbn [connect_all s_profp]. unfold s1, setup_profiles. cbn [s_profp]. rewrite NILR, NA. cbn.
+      change (existsb (N.eqb x) (s_profp s)) with (mem x (s_profp s)). rewrite A3, mem_active_ids. apply A1. }
+    split; [intros _; exact E | eapply Equiv_Agree; eassumption].
+  - (* FailAfter *) change ((1 <=? 0) && (0 <=? setup_calls s)) with false; change ((0 - setup_calls s =? 1) || (0 - setup_calls s =? 2)) with false; cbn iota. destruct (is_nil (newids s1)) eqn:N; cbn [fst snd].
+    + assert (E : Equiv (setup_profiles s1 false false) s) by (eapply Equiv_trans; [apply sp_equiv; exact AG1 | exact E1]).
+      split; [intros _; exact E | eapply Equiv_Agree; eassumption].
+    + assert (NN : is_nil (newids s) = false) by exact N. rewrite NN in EX. cbn in EX. rewrite andb_true_r in EX.
+      assert (E : Equiv (setup_profiles (unconnect_all (newids s1)
+                   (setup_profiles (setup_profiles (connect_all (newids s1) s1) false false) false false)) false false) s).
+      { apply UN; [reflexivity | left; exact EX]. }
+      split; [intros _; exact E | eapply Equiv_Agree; eassumption].
+Qed.
+
 Ltac pointwise A1 A2 A3 L M id :=
   let x := fresh "x" in
   intro x; cbn [s_conns s_repo s_profc s_profp];
@@ -66,10 +244,11 @@ Lemma change_cases : forall s o f, Agree s -> excluded s o f = false ->
   let r := run_change s o f in
   ((snd r = true \/ snd (fst r) = false) -> Equiv (fst (fst r)) s) /\ Agree (fst (fst r)).
 Proof.
-  intros s o f [A1 [A2 A3]] EX.
-  destruct s as [conns repo pc pp]. cbn [s_conns s_repo s_profc s_profp] in *.
-  unfold is_active, active in A1.
-  destruct o as [id auto byg | id forget ad bh]; destruct f as [| |k|];
+  intros s o f AG EX.
+  destruct o as [id auto byg | id forget ad bh | ]; [ | | apply autoconnect_cases; assumption].
+  all: destruct AG as [A1 [A2 A3]]; destruct s as [conns repo pc pp]; cbn [s_conns s_repo s_profc s_profp] in *;
+    unfold is_active, active in A1.
+  all: destruct f as [| |k|];
     pose proof (A1 id) as A1id; revert A1id EX;
     unfold excluded, run_change, creates, do_connect, do_disconnect, undo_connect, undo_disconnect, active;
     cbn [s_conns s_repo s_profc s_profp];
@@ -162,6 +341,33 @@ Theorem connect_undo_hotplug_gone_refuted : exists s o f, Agree s /\ snd (run_ch
 Proof. refute (mkSt [(0, mkC true false false true true)] [] [] []) (OConnect 0 false false) FailAfter (agree_inactive (mkC true false false true true) eq_refl). Qed.
 Theorem forget_undo_refuted : exists s o f, Agree s /\ snd (run_change s o f) = true /\ ~ Equiv (fst (fst (run_change s o f))) s.
 Proof. refute (mkSt [(0, mkC true false true false false)] [] [] []) (ODisconnect 0 true false false) FailAfter (agree_inactive (mkC true false true false false) eq_refl). Qed.
+
+(* auto-connect from a state without active connections, a later task fails: the slot snap keeps the profile of the undone connections *)
+Theorem autoconnect_undo_refuted : exists s o f, Agree s /\ snd (run_change s o f) = true /\ ~ Equiv (fst (fst (run_change s o f))) s.
+Proof. refute (mkSt [] [] [] []) OAutoConnect FailAfter (reload_agree [] (NoDup_nil N)). Qed.
+
+(* a successful auto-connect: every pair without an entry gets an active auto connection, existing entries (also undesired
+   and hotplug-gone ones) are left alone, the repository is the active set *)
+Theorem autoconnect_success : forall s x, Agree s -> snd (run_change s OAutoConnect NoFail) = false /\
+  lookup (s_conns (fst (fst (run_change s OAutoConnect NoFail)))) x =
+    (if mem x univ then match lookup (s_conns s) x with Some c => Some c | None => Some auto_c end else lookup (s_conns s) x).
+Proof.
+  intros s x AG. cbn [run_change]. unfold run_autoconnect. cbv zeta.
+  change ((1 <=? 0) && (0 <=? setup_calls s)) with false. change ((0 - setup_calls s =? 1) || (0 - setup_calls s =? 2)) with false. cbn iota.
+  set (s1 := setup_profiles s false false).
+  assert (MN : mem x (newids s1) = mem x univ && match lookup (s_conns s) x with None => true | Some _ => false end).
+  { unfold newids. cbn [s1 setup_profiles s_conns]. generalize univ as l. induction l as [|y l IH]; [reflexivity|].
+    cbn [filter]. destruct (N.eqb_spec y x).
+    - subst y. destruct (lookup (s_conns s) x) eqn:L.
+      + rewrite IH, !mem_cons, N.eqb_refl. cbn. rewrite andb_false_r. reflexivity.
+      + rewrite !mem_cons, N.eqb_refl. reflexivity.
+    - destruct (lookup (s_conns s) y); rewrite ?mem_cons, IH, ?mem_cons; (destruct (N.eqb_spec y x); [congruence | reflexivity]). }
+  destruct (is_nil (newids s1)) eqn:NI; cbn [fst snd].
+  - split; [reflexivity|]. pose proof (proj1 (is_nil_mem _) NI x) as H. rewrite MN in H. cbn [s1 setup_profiles s_conns].
+    destruct (mem x univ); [|reflexivity]. destruct (lookup (s_conns s) x); [reflexivity | discriminate].
+  - split; [reflexivity|]. cbn [setup_profiles connect_all s_conns]. rewrite lookup_fold_set, MN. cbn [s1 setup_profiles s_conns].
+    destruct (mem x univ); [|reflexivity]. destruct (lookup (s_conns s) x); reflexivity.
+Qed.
 
 (* former finding 8 (repaired by commit 63d7dd9 in /repo): a disconnect / forget task that fails in ANY of its security
    setup calls leaves the persisted conns untouched and the repository exactly as it was (the connection is put back) *)
